@@ -81,6 +81,23 @@ fn trigger_programs() -> Vec<P> {
     out.into_iter().map(P::normalized).collect()
 }
 
+/// command-API programs that also use the legacy capability API from the same `update`
+fn mixed_programs() -> Vec<P> {
+    let leg: Vec<P> = vec![P::Req(s0()), P::Stream(s0()), P::Notify(s0()), P::Burst(s0(), s0()), P::SpawnAfter(s0(), s0()), P::Join(s0(), s0()), P::Event(s0())];
+    let cmd: Vec<P> = vec![P::Req(s0()), P::Stream(s0()), P::Notify(s0()), P::Burst(s0(), s0()), P::SpawnAfter(s0(), s0()), P::ReqReq(s0(), s0()), P::Done, P::MixedNotify(s0(), s0())];
+    let mut out = vec![P::MixedNotify(s0(), s0()), P::then(P::MixedNotify(s0(), s0()), P::Notify(s0())), P::MapEvent(Box::new(P::MixedNotify(s0(), s0())))];
+    for l in &leg {
+        for c in &cmd {
+            out.push(P::All(vec![P::Legacy(Box::new(l.clone())), c.clone()]));
+            // (a `Legacy` part starts when `update` runs, so it may only stand where the program
+            // starts at once: top level or members of all/and, not behind a `then`)
+            out.push(P::and(c.clone(), P::Legacy(Box::new(l.clone()))));
+        }
+        out.push(P::Trigger(s0(), Box::new(P::All(vec![P::Legacy(Box::new(l.clone())), P::MixedNotify(s0(), s0())]))));
+    }
+    out.into_iter().map(P::normalized).collect()
+}
+
 fn legacy_programs(n: usize) -> Vec<P> {
     let atoms = vec![
         P::Done,
@@ -171,6 +188,8 @@ pub fn suites(id: &str, tier: Tier) -> Vec<Suite> {
                 Suite { name: "core/command-api", host: HostKind::CoreCmd, programs: if q { plain(3) } else { plain(3) }, bounds: bounds(tier.pick(6, 8), 0, 0, 1, 2) },
                 Suite { name: "core/command-api/triggers", host: HostKind::CoreCmd, programs: trig.clone(), bounds: bounds(tier.pick(6, 9), 0, 0, 1, 2) },
                 Suite { name: "core/command-api/aborts", host: HostKind::CoreCmd, programs: with_abort(tier.pick(2, 3)), bounds: bounds(tier.pick(6, 7), tier.pick(1, 2), 0, 1, 2) },
+                Suite { name: "core/mixed-legacy+command", host: HostKind::CoreCmd, programs: mixed_programs(), bounds: bounds(tier.pick(6, 8), 0, 0, 1, 2) },
+                Suite { name: "bridge/bincode/mixed-legacy+command", host: HostKind::Bincode, programs: mixed_programs(), bounds: bounds(tier.pick(6, 8), 0, 0, 1, 2) },
                 Suite { name: "core/legacy-api", host: HostKind::CoreLegacy, programs: legacy_programs(tier.pick(3, 4)), bounds: bounds(tier.pick(7, 9), 0, 0, 1, 2) },
                 Suite { name: "bridge/bincode", host: HostKind::Bincode, programs: { let mut v = plain(2); v.extend(trigger_programs()); v }, bounds: bounds(tier.pick(6, 8), 0, 0, 1, 2) },
                 Suite { name: "bridge/json", host: HostKind::Json, programs: { let mut v = plain(2); v.extend(trigger_programs()); v }, bounds: bounds(tier.pick(6, 8), 0, 0, 1, 2) },
@@ -224,6 +243,8 @@ pub fn suites(id: &str, tier: Tier) -> Vec<Suite> {
                 v.push(Suite { name: "plain", host, programs: plain(tier.pick(2, 3)), bounds: bounds(tier.pick(6, 7), 0, 1, 1, 2) });
             }
             v.push(Suite { name: "plain/legacy", host: HostKind::CoreLegacy, programs: legacy_programs(3), bounds: bounds(tier.pick(6, 8), 0, 0, 1, 2) });
+            v.push(Suite { name: "mixed-legacy+command", host: HostKind::CoreCmd, programs: mixed_programs(), bounds: bounds(tier.pick(6, 8), 0, 0, 1, 2) });
+            v.push(Suite { name: "mixed-legacy+command", host: HostKind::Json, programs: mixed_programs(), bounds: bounds(tier.pick(6, 8), 0, 0, 1, 2) });
             v
         }
         "C06" => {
